@@ -9,6 +9,10 @@
   any edit of a formula in the Rust text -- even a harmless `a * b` ↦ `b * a` -- breaks the
   theorem of that operator.
 
+  Error positions: every theorem starts on its own line with the keyword `theorem` (comments before a theorem
+  are plain comments, not doc comments), so `<file>:<line>` of a build error lies between that line and the next
+  `theorem` line.
+
   Hand-written once; never regenerated.
 -/
 import SLV.Gen.Bi
@@ -17,7 +21,21 @@ open Scalar
 
 variable {α : Type} [Scalar α]
 
-/-- `bi::check_simplex` -/
+/-! ### src/approx_ext.rs, src/errors.rs -/
+
+theorem gen_is_in_range_eq : @SLV.Gen.is_in_range = @Scalar.isInRange := rfl
+/- `in_unit_interval(v) = is_in_range(v, 0, 1)` with `is_in_range` inlined; `ulps_eq!(v, V::zero())` is
+    `Scalar.isZero v` and `ulps_eq!(v, V::one())` is `Scalar.isOne v` (the convention of the `Scalar` class) -/
+theorem gen_in_unit_interval_eq : @SLV.Gen.in_unit_interval = @Scalar.inUnit := rfl
+theorem gen_is_one_eq : @SLV.Gen.is_one = @Scalar.isOne := rfl
+theorem gen_is_zero_eq : @SLV.Gen.is_zero = @Scalar.isZero := rfl
+/- `errors::check_unit_interval`; the error value is identified with its label -/
+theorem gen_check_unit_interval_eq : @SLV.Gen.check_unit_interval = @SLV.checkUnit := rfl
+theorem gen_check_is_one_eq : @SLV.Gen.check_is_one = @SLV.checkOne := rfl
+
+/-! ### src/bi.rs -/
+
+/- `bi::check_simplex` -/
 theorem gen_check_simplex_eq : @SLV.Gen.check_simplex = @SLV.BOp.checkSimplex := by
   funext α _ b d u
   unfold SLV.Gen.check_simplex SLV.BOp.checkSimplex
@@ -26,18 +44,18 @@ theorem gen_check_simplex_eq : @SLV.Gen.check_simplex = @SLV.BOp.checkSimplex :=
   cases checkUnit d Label.dd <;> try rfl
   cases checkUnit u Label.u <;> rfl
 
-/-- `bi::check_base_rate` is `check_unit_interval(a, "a")` -/
+/- `bi::check_base_rate` is `check_unit_interval(a, "a")` -/
 theorem gen_check_base_rate_eq :
     @SLV.Gen.check_base_rate = fun (α : Type) (_ : Scalar α) (a : α) => checkUnit a Label.ba := rfl
 
-/-- `BSimplex::try_new` -/
+/- `BSimplex::try_new` -/
 theorem gen_BSimplex_try_new_eq : @SLV.Gen.BSimplex_try_new = @SLV.BOp.simplexTryNew := by
   funext α _ b d u
   unfold SLV.Gen.BSimplex_try_new SLV.BOp.simplexTryNew
   rw [gen_check_simplex_eq]
   rfl
 
-/-- `BOpinion::try_new` -/
+/- `BOpinion::try_new` -/
 theorem gen_try_new_eq : @SLV.Gen.try_new = @SLV.BOp.tryNew := by
   funext α _ b d u a
   unfold SLV.Gen.try_new SLV.Gen.check_base_rate SLV.Gen.BSimplex_try_new SLV.BOp.tryNew
@@ -45,7 +63,7 @@ theorem gen_try_new_eq : @SLV.Gen.try_new = @SLV.BOp.tryNew := by
   cases checkUnit a Label.ba <;> try rfl
   cases SLV.BOp.checkSimplex b d u <;> rfl
 
-/-- `BOpinion::new` = `try_new(..).unwrap()` (panic ≙ error) -/
+/- `BOpinion::new` = `try_new(..).unwrap()` (panic ≙ error) -/
 theorem gen_new_eq : @SLV.Gen.new = @SLV.BOp.tryNew := by
   funext α _ b d u a
   unfold SLV.Gen.new
@@ -61,7 +79,7 @@ theorem gen_trans_unc_eq : @SLV.Gen.trans_unc = @SLV.BOp.transUnc := rfl
 theorem gen_trans_opp_eq : @SLV.Gen.trans_opp = @SLV.BOp.transOpp := rfl
 theorem gen_trans_bsr_eq : @SLV.Gen.trans_bsr = @SLV.BOp.transBsr := rfl
 
-/-- `BOpinion::deduce`.  The model returns the opinion together with a coverage tag (`DCase`, not part of
+/- `BOpinion::deduce`.  The model returns the opinion together with a coverage tag (`DCase`, not part of
     the Rust code) and computes `k` in the separate function `deduceK`; the Rust text has one function with
     `match (b0 > b1, d0 > d1) { (true, true) | (false, false) => 0.0, (bp, _) => .. }` where the model writes
     `if bp == dp`.  Case split on the four Booleans involved, then `rfl` in each of the cases. -/
@@ -78,5 +96,14 @@ theorem gen_deduce_eq :
     dsimp only [SLV.Gen.projection, SLV.BOp.projection]
     simp only [Bool.false_eq_true, if_false, if_true]
     split <;> simp only [*] <;> rfl
+
+/-! ### src/convert.rs -/
+
+theorem gen_BOpinion_into_Opinion1d_eq : @SLV.Gen.BOpinion_into_Opinion1d = @SLV.BOp.toOpinion := rfl
+/- (`ofOpinion` uses no arithmetic, hence no `Scalar` instance argument) -/
+theorem gen_Opinion1d_into_BOpinion_eq :
+    @SLV.Gen.Opinion1d_into_BOpinion = fun (α : Type) (_ : Scalar α) (w : Opinion α 2) => SLV.BOp.ofOpinion w := rfl
+theorem gen_Opinion1d_ref_into_BOpinion_eq :
+    @SLV.Gen.Opinion1d_ref_into_BOpinion = fun (α : Type) (_ : Scalar α) (w : Opinion α 2) => SLV.BOp.ofOpinion w := rfl
 
 end SLV.Gen.Tie
